@@ -23,7 +23,7 @@ def h64(obj):
 
 class Ctx:
     __slots__ = ("prefix", "expect", "choices", "points", "states", "notes",
-                 "max_points")
+                 "max_points", "failed")
 
     def __init__(self, prefix=(), expect=None, max_points=100000):
         self.prefix = list(prefix)
@@ -33,24 +33,31 @@ class Ctx:
         self.states = []              # state hashes noted at choice points
         self.notes = {}
         self.max_points = max_points
+        self.failed = None            # set when a HarnessError was raised from choose():
+        #                               the code under test may swallow the exception
+
+    def _fail(self, msg):
+        self.failed = msg
+        raise HarnessError(msg)
 
     def choose(self, n, label="", free=False):
         """Return 0..n-1; 0 is the default (nominal) answer."""
+        if self.failed:
+            raise HarnessError(self.failed)
         if n <= 0:
-            raise HarnessError("choose(%r) at %s" % (n, label))
+            self._fail("choose(%r) at %s" % (n, label))
         i = len(self.choices)
         if i >= self.max_points:
-            raise HarnessError("more than %d choice points (livelock?)" % self.max_points)
+            self._fail("more than %d choice points (livelock?)" % self.max_points)
         pt = (n, label, bool(free))
         if i < len(self.prefix):
             c = self.prefix[i]
             if self.expect is not None and i < len(self.expect):
                 if tuple(self.expect[i]) != pt:
-                    raise HarnessError(
-                        "replay divergence at point %d: recorded %r, now %r"
-                        % (i, tuple(self.expect[i]), pt))
+                    self._fail("replay divergence at point %d: recorded %r, now %r"
+                               % (i, tuple(self.expect[i]), pt))
             if c >= n or c < 0:
-                raise HarnessError("replay choice %d out of range %d at %s" % (c, n, label))
+                self._fail("replay choice %d out of range %d at %s" % (c, n, label))
         else:
             c = 0
         self.choices.append(c)
@@ -139,6 +146,8 @@ def explore(run, check, stats, bound=None, max_execs=None, max_points=100000):
         prefix, expect = stack.pop()
         ctx = Ctx(prefix, expect, max_points)
         obs = run(ctx)
+        if ctx.failed:
+            raise HarnessError(ctx.failed)
         if ctx.unused_prefix():
             raise HarnessError("replay divergence: execution ended after %d points, "
                                "prefix has %d" % (len(ctx.choices), len(ctx.prefix)))
@@ -168,4 +177,6 @@ def run_once(run, choices):
     """Plain driver call with a fixed choice list (used by replay)."""
     ctx = Ctx(choices, None)
     obs = run(ctx)
+    if ctx.failed:
+        raise HarnessError(ctx.failed)
     return ctx, obs
